@@ -6,6 +6,9 @@ use amq_protocol::protocol::basic::GetOk as AmqpGetOk;
 use amq_protocol::protocol::basic::Return as AmqpReturn;
 use std::cmp::Ordering;
 
+// Upper bound on the memory reserved for a content body before any of it has arrived.
+const MAX_PREALLOCATED_BODY: u64 = 1 << 20;
+
 pub(super) struct ContentCollector {
     channel_id: u16,
     kind: Option<Kind>,
@@ -221,7 +224,10 @@ impl<T: ContentType> State<T> {
                         header.properties,
                     )))
                 } else {
-                    let buf = Vec::with_capacity(header.body_size as usize);
+                    // The announced size comes from the peer: reserve at most a modest
+                    // amount up front and let the buffer grow as body frames really arrive.
+                    let prealloc = u64::min(header.body_size, MAX_PREALLOCATED_BODY) as usize;
+                    let buf = Vec::with_capacity(prealloc);
                     Ok(Content::NeedMore(State::Body(start, header, buf)))
                 }
             }
